@@ -717,3 +717,168 @@ class DemuxMonitor:
         if sel >= self.n and sready:
             return "sink ready with no source selected (token would be lost)"
         return None
+
+
+# ------------------------------------------------------------------------------------------------------
+# glue instances (session 2): buffered down-converters, Monitor, selector width
+
+def bits_for(v):
+    """Migen bits_for for v >= 0, written independently."""
+    n = 1
+    while (1 << n) <= v:
+        n += 1
+    return n
+
+
+class QueueDownScoreboard:
+    """Down-converting element behind a REGISTERED sink (BufferizeEndpoints with a PipeValid on the sink): every wide
+    token accepted at the outer sink must come out as its r lanes, in order (physical lane r-1-k for the k-th when
+    reversed), first on lane 0 only, last on lane r-1 only, param copied, valid_token_count (when reported) set on
+    lane r-1 only; at most `max_lanes` narrow tokens wait inside."""
+
+    def __init__(self, r, nb, pw=0, reverse=False, vtc=False, max_lanes=None):
+        self.r, self.nb, self.pw, self.reverse, self.vtc, self.max_lanes = r, nb, pw, reverse, vtc, max_lanes
+        self.q = []
+
+    def observe(self, letter, outs):
+        v, d, f, l, rdy = letter[:5]
+        sready, ovalid, od, of, ol = outs[:5]
+        r, nb, pw = self.r, self.nb, self.pw
+        msg = None
+        if ovalid and rdy:
+            if not self.q:
+                msg = "delivered a narrow token although every accepted wide token was delivered completely"
+            else:
+                exp = self.q.pop(0)
+                got = (od & mask(nb), (od >> nb) & mask(pw), of, ol) + ((od >> (nb + pw),) if self.vtc else ())
+                if got != exp:
+                    msg = "delivered %r, expected %r (lane, param, first, last%s)" % (got, exp, ", count" if self.vtc else "")
+        if v and sready:
+            par = (d >> (r * nb)) & mask(pw)
+            for k in range(r):
+                n = r - 1 - k if self.reverse else k
+                self.q.append(((d >> (n * nb)) & mask(nb), par, int(bool(f) and k == 0), int(bool(l) and k == r - 1)) +
+                              ((int(k == r - 1),) if self.vtc else ()))
+        if msg is None and self.max_lanes is not None and len(self.q) > self.max_lanes:
+            msg = "more than %d narrow tokens in flight" % self.max_lanes
+        return msg
+
+
+class MonitorOracle:
+    """stream.Monitor (sys domain), written from the documentation: each counter counts its event since the last
+    reset and saturates at 2^w - 1; latch copies the counters; the CSR status shows the latched value two cycles
+    later (MultiReg).  letter = (reset, latch, valid, ready, first, last); outs = the four status values
+    (None for a counter that was not requested)."""
+
+    def __init__(self, w, delim_first, cfg):
+        self.w, self.df, self.cfg = w, delim_first, cfg
+        self.count = [0] * 4
+        self.latched = [0] * 4
+        self.pipe = [[0] * 4, [0] * 4]       # status = latched value of two cycles ago
+
+    def observe(self, letter, outs):
+        rs, la, v, r, f, l = letter[:6]
+        exp = self.pipe[1]
+        msg = None
+        names = ("tokens", "overflows", "underflows", "packets")
+        for k in range(4):
+            if self.cfg[k] and outs[k] != exp[k]:
+                msg = "%s status is %d, expected %d" % (names[k], outs[k], exp[k])
+        ev = (v and r, v and not r, (not v) and r, v and (f if self.df else l) and r)
+        top = (1 << self.w) - 1
+        new_l = list(self.latched)
+        new_c = list(self.count)
+        for k in range(4):
+            if rs:
+                new_c[k], new_l[k] = 0, 0
+            else:
+                if ev[k]:
+                    new_c[k] = min(self.count[k] + 1, top)
+                if la:
+                    new_l[k] = self.count[k]
+        self.pipe = [list(self.latched), self.pipe[0]]
+        self.count, self.latched = new_c, new_l
+        return msg
+
+
+class MonitorInst:
+    """Real stream.Monitor watching a free endpoint.  letter = (reset, latch, valid, ready, first, last);
+    `via_csr`: reset/latch are driven through the CSR strobes (`_reset.re`, `_latch.re`) instead of the logic inputs."""
+
+    def __init__(self, name, w, delim_first, cfg, via_csr=False, letters=None):
+        from litex.soc.interconnect import stream
+        from litex.gen import LiteXModule
+
+        ep = stream.Endpoint([("data", 8)])
+
+        class Top(LiteXModule):
+            def __init__(self):
+                self.ep = ep
+                self.mon = stream.Monitor(ep, count_width=w, with_tokens=bool(cfg[0]), with_overflows=bool(cfg[1]),
+                                          with_underflows=bool(cfg[2]), with_packets=bool(cfg[3]),
+                                          packet_delimiter="first" if delim_first else "last")
+        self.module = m = Top()
+        self.name = name
+        self.w, self.df, self.cfg = w, delim_first, tuple(int(bool(c)) for c in cfg)
+        self.lean_open = "monitor %d %d %d %d %d %d" % ((w, int(bool(delim_first))) + self.cfg)
+        self.netlist = Netlist(m)
+        mon = m.mon
+        self.rs = mon._reset.re if via_csr else mon.reset
+        self.la = mon._latch.re if via_csr else mon.latch
+        self.ep = ep
+        self.stat = [getattr(mon, "_" + n).status if c else None
+                     for n, c in zip(("tokens", "overflows", "underflows", "packets"), self.cfg)]
+        self.qual = [None] * 4
+        import itertools
+        self.alphabet = letters if letters is not None else list(itertools.product((0, 1), repeat=6))
+
+    def apply(self, letter):
+        nl = self.netlist
+        rs, la, v, r, f, l = letter
+        nl.set(self.rs, rs)
+        nl.set(self.la, la)
+        nl.set(self.ep.valid, v)
+        nl.set(self.ep.ready, r)
+        nl.set(self.ep.first, f)
+        nl.set(self.ep.last, l)
+        nl.settle()
+
+    def sample(self):
+        nl = self.netlist
+        return [nl.getu(s) if s is not None else 0 for s in self.stat]
+
+    def nontrivial(self, letter, outs):
+        return bool(letter[2] and letter[3]) or bool(letter[1])
+
+    def gen(self, rng, t):
+        regime = (t // 97) % 4
+        prs = (0.01, 0.0, 0.03, 0.002)[regime]
+        pla = (0.05, 0.02, 0.3, 0.1)[regime]
+        pv = (0.6, 0.95, 0.3, 0.9)[regime]
+        pr = (0.6, 0.9, 0.5, 0.2)[regime]
+        return (int(rng.random() < prs), int(rng.random() < pla), int(rng.random() < pv), int(rng.random() < pr),
+                int(rng.random() < 0.3), int(rng.random() < 0.3))
+
+    def monitor(self):
+        return MonitorOracle(self.w, self.df, self.cfg)
+
+
+def widen_sel(inst):
+    """Multiplexer/Demultiplexer: also drive selector values beyond the documented width `bits_for(max(n,2)-1)`
+    (the port keeps the low bits); the model (`muxw`/`demuxw`) computes that width from n itself."""
+    n = inst.n
+    base = inst.nsel
+    inst.lean_open = ("muxw %d" if inst.lean_open.startswith("mux") else "demuxw %d") % n
+    extra = [(l[0] + base,) + tuple(l[1:]) for l in inst.alphabet if l[0] in (0, n - 1, base - 1)]
+    inst.alphabet = list(inst.alphabet) + extra
+    inst.nsel = 2 * base
+    o_mon = inst.monitor
+    width = bits_for(max(n, 2) - 1)
+
+    def monitor():
+        m = o_mon()
+        o_obs = m.observe
+        m.observe = lambda letter, outs: o_obs((letter[0] & mask(width),) + tuple(letter[1:]), outs)
+        return m
+    inst.monitor = monitor
+    return inst
